@@ -29,7 +29,9 @@ def cases(draw, tier="quick"):
                           reward_lo=-90 if big else None, reward_hi=90 if big else None))
     return {"mdp": spec, "m": draw(st.integers(1, 5)), "episodes": draw(st.integers(1, 10)),
             "seed": draw(st.one_of(st.sampled_from([0, 1, 2 ** 31 - 1]), st.integers(0, 10 ** 6))),
-            "diff": draw(st.sampled_from([1e-3, 1e-6]))}
+            "diff": draw(st.sampled_from([1e-3, 1e-6])),
+            # the number type of the rmax hyper-parameter (e.g. R.max() of a float32 reward table, or a plain int)
+            "rmax_type": draw(st.sampled_from(["float", "float", "float32", "float64", "int"]))}
 
 
 class _Timeout(Exception):
@@ -63,7 +65,9 @@ def prop_rmax(case, ctx):
         def results(self):
             return None
 
-    learner = rm.RMAX(episodes=case["episodes"], rmax=rmax, num_transition_samples=case["m"],
+    rt = case.get("rmax_type", "float")      # (generated rewards are integers: every representation is exact)
+    rmax_arg = {"float32": np.float32, "float64": np.float64, "int": int}.get(rt, float)(rmax) if float(rmax).is_integer() else rmax
+    learner = rm.RMAX(episodes=case["episodes"], rmax=rmax_arg, num_transition_samples=case["m"],
                       bellman_convergence_diff=case["diff"], seed=case["seed"], event_listener_class=Recorder)
 
     def on_alarm(signum, frame):
